@@ -52,15 +52,24 @@ Theorem Adv_yesno_answers : forall specs scr f s,
      st_stack (ust s') = st_stack (ust s)).
 Proof. exact yesno_answers. Qed.
 
-(* the dialog has its `answer` attribute from its first refresh() on (the encoding of __init__'s
-   `self._response = None`, see AdvWidgets.v G1); later refreshes leave the answer alone *)
+(* the dialog's `answer` exists before any callback ran (__init__: self._response = None), for every table and
+   every position of the dialog in it; refresh() leaves it alone.  Hence, by Adv_quit_protocol, a YesNoDialog or
+   PasswordDialog as quit dialog whose push returns without an answer does NOT quit (the AttributeError branch is
+   for dialogs without the property: ErrorDialog, HelpScreen, GetInputScreen) *)
+Theorem Adv_initial_answer : forall specl typed quit run_empty i sp,
+  nth_error specl i = Some sp -> ss_answer (scr_of (sstate0 specl typed quit run_empty) i) = sc_answer0 sp.
+Proof. exact initial_answer. Qed.
+
+Theorem Adv_answer0 : forall k,
+  sc_answer0 (adv_spec k) = match k with KYesNo | KPassword => AnsOther | _ => AnsNoAttr end.
+Proof. exact adv_answer0. Qed.
+
 Theorem Adv_yesno_refresh : forall specs d f s,
-  specs (sd_scr d) = yes_no_dialog_spec -> sd_scr d < length (st_scr (ust s)) ->
-  exists s', exec (screen_code specs) (10 + f) (CProg (call_refresh specs d)) s = (ONormal, s') /\
+  specs (sd_scr d) = yes_no_dialog_spec ->
+  exists s', exec (screen_code specs) (6 + f) (CProg (call_refresh specs d)) s = (ONormal, s') /\
     trace s' = EUser T_REFRESH [sd_id d; sd_scr d; sd_args d] [] :: trace s /\
     st_stack (ust s') = st_stack (ust s) /\
-    ss_answer (scr_of (ust s') (sd_scr d)) =
-      (if (ss_n_refresh (scr_of (ust s) (sd_scr d)) =? 0)%nat then AnsOther else ss_answer (scr_of (ust s) (sd_scr d))).
+    ss_answer (scr_of (ust s') (sd_scr d)) = ss_answer (scr_of (ust s) (sd_scr d)).
 Proof. exact yesno_refresh. Qed.
 
 (* GetInputScreen / GetPasswordInputScreen: for EVERY key the table built from the acceptance conditions
@@ -81,13 +90,22 @@ Theorem Adv_getinput_run : forall specs conds scr key f s,
     st_stack (ust s') = st_stack (ust s).
 Proof. exact getinput_run_ex. Qed.
 
-(* HelpScreen: any key closes;  ErrorDialog: any key leaves (AdvWidgets.v G2: ExitMainLoop stands for sys.exit);
+(* HelpScreen: any key closes;  ErrorDialog: any key is sys.exit(1);
    PasswordDialog.input: the empty line is rejected, any other line is stored and closes *)
 Theorem Adv_help_table : forall key, input_entry help_screen_spec key = ([], RClose).
 Proof. exact help_table. Qed.
 
-Theorem Adv_error_table : forall key, input_entry error_dialog_spec key = ([SExit], RNone).
+Theorem Adv_error_table : forall key, input_entry error_dialog_spec key = ([SSysExit], RNone).
 Proof. exact error_table. Qed.
+
+(* InputManager.process_input on an ErrorDialog, any key, any state: SystemExit leaves through `except Exception`;
+   exactly one event (the T_INPUT): no follow-up action, no ExceptionSignal, the stack untouched *)
+Theorem Adv_error_exits : forall specs scr key f s,
+  specs scr = error_dialog_spec ->
+  exists s', exec (screen_code specs) (12 + f) (CProg (process_input specs scr key)) s = (OThrow XSysExit, s') /\
+    trace s' = EUser T_INPUT [scr; ss_input_args (scr_of (ust s) scr)] key :: trace s /\
+    st_stack (ust s') = st_stack (ust s).
+Proof. exact error_process. Qed.
 
 Theorem Adv_password_table : forall key,
   input_entry password_dialog_spec key = match key with [] => ([], RDiscarded) | _ => ([SSetAnswer AnsOther], RClose) end.
@@ -168,16 +186,39 @@ Example Adv_example :
   sok (chk_C07 (Some 1)) ex_typed (rev (trace (snd ex_run))) = true.
 Proof. vm_compute. repeat split. Qed.
 
+(* the quit dialog that was never rendered: the handler of "1" calls force_quit() and returns the quit key;
+   push_screen_modal returns at once, the YesNoDialog's answer is None: no ExitMainLoop from the handler (every
+   handler ends normally), the redraw signal is discarded by the stopped loop *)
+Definition ex2_specl : list screen_spec :=
+  [ {| sc_setup := []; sc_refresh := []; sc_show := []; sc_closed := [];
+       sc_input := [([49%N], ([SForceQuit], RKey [113%N]))]; sc_input_default := ([], None);
+       sc_prompt_none := false; sc_input_required := true; sc_no_separator := false; sc_skip_check := false;
+       sc_pages := 0; sc_answer0 := AnsNoAttr |} ] ++ map adv_spec [KYesNo].
+Definition ex2_run :=
+  app_run_all (fun n => nth n ex2_specl default_spec) ex2_specl [Some [49%N]; Some s_yes] (Some 1) false 3000
+              [SACmds [SSchedule 0 0]; SARun].
+
+Example Adv_example_never_rendered :
+  fst ex2_run = [ONormal; ONormal] /\
+  map ss_answer (st_scr (ust (snd ex2_run))) = [AnsNoAttr; AnsOther] /\
+  existsb (fun e => match e with EDropped _ => true | _ => false end) (trace (snd ex2_run)) = true /\
+  forallb (fun e => match e with EHandlerEnd _ _ (Some _) => false | _ => true end) (trace (snd ex2_run)) = true /\
+  sok (chk_C07 (Some 1)) [Some [49%N]; Some s_yes] (rev (trace (snd ex2_run))) = true.
+Proof. vm_compute. repeat split. Qed.
+
 Print Assumptions Adv_yesno_table.
 Print Assumptions Adv_yesno_action.
 Print Assumptions Adv_str_eqb_eq.
 Print Assumptions Adv_yesno_answers.
+Print Assumptions Adv_initial_answer.
+Print Assumptions Adv_answer0.
 Print Assumptions Adv_yesno_refresh.
 Print Assumptions Adv_getinput_table.
 Print Assumptions Adv_getinput_action.
 Print Assumptions Adv_getinput_run.
 Print Assumptions Adv_help_table.
 Print Assumptions Adv_error_table.
+Print Assumptions Adv_error_exits.
 Print Assumptions Adv_password_table.
 Print Assumptions Adv_quit_protocol.
 Print Assumptions Adv_quit_without_dialog.
